@@ -175,7 +175,11 @@ func (s *filterSyms) mapIndex(m ssa.Value) (j ssa.Value, ok bool) {
 	if !isI {
 		return nil, false
 	}
-	fa, isF := ia.X.(*ssa.FieldAddr)
+	base := ia.X
+	if sl, isSl := base.(*ssa.Slice); isSl && sl.Low == nil { // `range f.ipMaps[:]`
+		base = sl.X
+	}
+	fa, isF := base.(*ssa.FieldAddr)
 	if !isF || sx.FieldOf(fa) != s.ipMaps {
 		return nil, false
 	}
@@ -716,6 +720,18 @@ func runC11(p *core.Prog, r *core.Report) {
 				if iff, isIf := hdr.Instrs[len(hdr.Instrs)-1].(*ssa.If); isIf && haveInit && haveStep {
 					if c, isB := iff.Cond.(*ssa.BinOp); isB {
 						bound, isC := sx.ConstInt(c.Y)
+						if !isC {
+							// len(arr[:]) of a fixed-size array
+							if lc, ok := c.Y.(*ssa.Call); ok && isBuiltin(lc, "len") {
+								if sl, ok := lc.Call.Args[0].(*ssa.Slice); ok && sl.Low == nil && sl.High == nil {
+									if pt, ok := sl.X.Type().Underlying().(*types.Pointer); ok {
+										if at, ok := pt.Elem().Underlying().(*types.Array); ok {
+											bound, isC = at.Len(), true
+										}
+									}
+								}
+							}
+						}
 						tested := c.X
 						first := init
 						if b, isB := tested.(*ssa.BinOp); isB && b.X == ssa.Value(idx) {
